@@ -78,3 +78,28 @@ def gadget_circuit(rng, kinds=None, size_hint=0):
     for _ in range(size_hint):
         L.append("gmul 1 0 0 0 0 3 - $0 $1 0 0")
     return L
+
+# ------------------------------------------------------------ real prover as second opinion
+def real_prover_verdicts(cases, name, pp_log=13, timeout=3000):
+    """cases: [(id, body_lines, {witness index: value})].  The circuit is compiled from the honest
+    body; the prover is then run on body + witness overrides (same layout, adversarial assignment)
+    and any returned proof is verified.  -> {id: 'ACCEPTED' | 'REJECTED:<kind>' | 'ERROR:<text>'}"""
+    S = Script()
+    S.cmd("pp", "pp", 1 << pp_log, 3)
+    ids = {}
+    for cid, body, over in cases:
+        body = [l for l in body if l != "snap"]
+        S.circuit(f"h{cid}", body)
+        S.circuit(f"a{cid}", body + [f"setw {i} {hx(v)}" for i, v in sorted(over.items())])
+        c1 = S.cmd("compile", f"k{cid}", "pp", "7c", f"h{cid}")
+        c2 = S.cmd("prove", f"p{cid}", f"k{cid}", f"a{cid}", 77)
+        c3 = S.cmd("verify", f"k{cid}", f"p{cid}", "=")
+        ids[cid] = (c1, c2, c3)
+    res = run(S, name, timeout=timeout)
+    out = {}
+    for cid, (c1, c2, c3) in ids.items():
+        if status(res.get(c1, "")) != "OK": out[cid] = "ERROR:compile " + res.get(c1, "")[:80]
+        elif status(res.get(c2, "")) != "OK": out[cid] = "REJECTED:" + (errkind(res[c2]) or res[c2][:40])
+        elif status(res.get(c3, "")) == "OK": out[cid] = "ACCEPTED"
+        else: out[cid] = "REJECTED:verifier " + res.get(c3, "")[:40]
+    return out
